@@ -145,13 +145,27 @@ def raw_coq(docs):
     return dump_tariffs.raw_list_coq(docs, "inline")
 
 
+def finite(v):
+    """a recorded result must be a finite number (or a vector of them); anything else is reported as an
+    error label so that it can never be mistaken for a value"""
+    import math
+    try:
+        if isinstance(v, (list, tuple)) or getattr(v, "ndim", 0) > 0:
+            ok = all(math.isfinite(float(x)) for x in v)
+        else:
+            ok = math.isfinite(float(v))
+    except (TypeError, ValueError):
+        ok = False
+    return ("ok", v) if ok else ("err", "not-a-finite-number:%.40r" % (v,))
+
+
 def run(src, f):
     """call f(tariff) on the real implementation; ('ok', value) | ('err', label)"""
     t, cerr = load_impl(src)
     if t is None:
         return ("err", "ctor:" + cerr)
     try:
-        return ("ok", f(t))
+        return finite(f(t))
     except Exception as e:  # noqa
         return ("err", err_label(e))
 
@@ -320,7 +334,7 @@ def make_sim(src, start, period, iteration, voltages, aware=None, rates=None):
 
 def call(f):
     try:
-        return ("ok", f())
+        return finite(f())
     except Exception as e:  # noqa
         return ("err", err_label(e))
 
@@ -589,8 +603,43 @@ def bundled_random_case(rng, names):
                      explicit=rng.random() < 0.3)
 
 
+def finite_check_cases():
+    """Evaluate the finite check behind C17_exactly_one on the regenerated data (vm_compute in coqc) and turn
+    every failing (file, month, day, weekday) cell into a lookup on the real implementation.  Empty on a
+    healthy tree; on a damaged one these cases come first, so the reported witness is the replayed cell."""
+    out = []
+    try:
+        cells, ctor = coq_failing_cells()
+    except Exception:  # noqa
+        return out
+    import random
+    rr = random.Random(0)
+    for name, e in ctor[:5]:
+        c = case_ctor(("b", name))
+        c["input"]["from_finite_check"] = [name, e]
+        out.append(c)
+    seen = {}
+    for name, m, d, wd, cnt in cells:
+        if seen.get(name, 0) >= 4:
+            continue
+        y = year_with(rr, (m, d), wd)
+        if y is None:
+            continue
+        seen[name] = seen.get(name, 0) + 1
+        c = case_tariff(("b", name), at(y, m, d, 9 * 3600))
+        c["input"]["from_finite_check"] = dict(file=name, month=m, day=d, weekday=wd, valid_schedules_in_model=cnt)
+        c["kind"] = "finite-check-cell"
+        out.append(c)
+    return out
+
+
 def gen_cases(rng, n, tier):
     names = bundled_names()
+    pre = finite_check_cases()
+    return pre + gen_cases_main(rng, n, tier, names)
+
+
+def gen_cases_main(rng, n, tier, names):
     cases = fixed_cases(names)
     for _ in range(120 if tier == "quick" else 600):
         cases.append(case_fields(rand_instant(rng, 1, 9999) if rng.random() < 0.8 else
@@ -840,7 +889,7 @@ def search(rng, budget_s, broken):
     if w:
         return w
     while time.time() - t0 < budget_s:
-        for c in gen_cases(rng, 400, "quick"):
+        for c in gen_cases_main(rng, 400, "quick", names):
             r = monitor(c)
             if r:
                 return dict(case=c["input"], impl=c["impl"], why=r)
